@@ -18,7 +18,7 @@ from __future__ import annotations
 import random
 from dataclasses import dataclass, field
 
-from vf.gen_para import SENT_END
+from vf.gen_para import SENT_END, long_atom
 
 NOT_END = ["Mr.", "A.", "U.S.", "e.g.", "ok:", "THE.", "x."]
 
@@ -162,6 +162,12 @@ class Gen:
 
     def atom(self) -> str:
         r = self.r
+        if self.scale > 1 and r.random() < 0.05:
+            # a construct of several hundred to several thousand characters (a bound a pattern might put on its length)
+            self.feats.add("long-atom")
+            a = long_atom(r)
+            self.feats.add("codespan" if a.startswith("`") else ("link" if a.startswith("[") else ("inline-html" if a.startswith("<s") else "inline-tag")))
+            return a
         k = r.random()
         if k < 0.30:
             self.feats.add("codespan")
